@@ -406,10 +406,14 @@ def conditional_rule(run, ctx):
             pats = [pats]
         if not any(H.find_pat(c, p_) for p_ in pats):
             run.violation(fam, label, key, w, "parse_conditional: " + what)
-    need("if let Expr::Alt({alts}) = {child} {{t} = {alts}.remove(0);", "true-first", "the first alternative of the body must become the true branch (alternatives.remove(0))")
-    need("if (1 == len({alts})) {{f} = {alts}.pop().expect({*msg})} else {{f} = Expr::Alt({alts})}", "false-rest", "the remaining alternatives must become the false branch (a single one unwrapped, several kept as an alternation)")
+    need("let ({be},{t}) = self.parse_branch({nx},depth)?;", "true-branch", "the true branch is what parse_branch reads up to the first top-level `|`")
+    need("if self.re[{e}..].starts_with('|') {let ({fe},{fb}) = self.parse_re((1 + {e}),depth)?; {f} = {fb}; {e} = {fe}}", "false-branch",
+         "everything after the first top-level `|` (possibly a further alternation) is the false branch")
     need("let {f} = Expr::Empty", "false-default", "an absent false branch must be Expr::Empty")
-    need("} else {{t} = {child}}", "only-true", "a body without `|` is the true branch")
+    n += 1
+    alt_pats = [nd for nd in H.walk(fn["body"]) if nd.get("k") in ("TupleStructPat", "StructPat") and nd.get("adt", "").endswith("Expr") and nd.get("variant") == "Alt"]
+    if alt_pats or "let Expr::Alt(" in c:
+        run.violation(fam, label, "alt-destructuring", w, "parse_conditional: the body must not be split by destructuring an Expr::Alt: a true branch that merely consists of a group such as (?:a|b) (or a flag group (?i:a|b)) parses to a bare alternation and would be torn into true/false branches")
     need("let {ic} = if let Expr::Backref({g}) = {cond} {Expr::BackrefExistsCondition({g})} else {{cond}}", "group-condition",
          "a group-number / name condition must become BackrefExistsCondition(group), any other condition is kept as an expression")
     need(["if ((Expr::Empty == {t}) && (Expr::Empty == {f})) {{ic}} else {Expr::Conditional{condition:Box::new({ic}),false_branch:Box::new({f}),true_branch:Box::new({t})}}",
